@@ -4,6 +4,7 @@ from functools import partial, update_wrapper
 from types import MethodType
 from typing import Callable, TypeVar
 
+from .._state import state
 from ._validators import InvariantValidator
 
 
@@ -20,6 +21,8 @@ class InvariantedClass:
     _deal_invariants: list[InvariantValidator]
 
     def _deal_validate(self) -> None:
+        if not state.debug:
+            return
         for validator in self._deal_invariants:
             validator.validate((self,), {})
 
@@ -44,6 +47,8 @@ class InvariantedClass:
 
 
 def invariant(validator: InvariantValidator, _class: T) -> T:
+    if state.removed:
+        return _class
     invs = getattr(_class, ATTR, None)
     if invs is None:
         patched_class = type(
